@@ -11,8 +11,18 @@ from typing import Any, Mapping
 from pyopenapi_gen import IRRequestBody, IRSchema
 from pyopenapi_gen.core.parsing.context import ParsingContext
 from pyopenapi_gen.core.parsing.schema_parser import _parse_schema
+from pyopenapi_gen.core.utils import NameSanitizer
 
 logger = logging.getLogger(__name__)
+
+
+def _is_array_of_inline_objects(node: Mapping[str, Any]) -> bool:
+    """An array whose items are (arrays of) an inline object: its item model needs a name derived from the operation,
+    otherwise it is numbered (AnonymousArrayItem, AnonymousArrayItem2, ...) in the order paths are declared."""
+    items = node.get("items")
+    if node.get("type") != "array" or not isinstance(items, Mapping) or "$ref" in items:
+        return False
+    return items.get("type") == "object" or "properties" in items or _is_array_of_inline_objects(items)
 
 
 def parse_request_body(
@@ -74,6 +84,14 @@ def parse_request_body(
         ):
             content_map[mt] = _parse_schema(
                 parent_promo_name_for_req_body, media_schema_node, context, allow_self_reference=False
+            )
+        elif isinstance(media_schema_node, Mapping) and _is_array_of_inline_objects(media_schema_node):
+            # the name post_process_operation gives an unnamed body anyway; known here, it also names the item model
+            content_map[mt] = _parse_schema(
+                NameSanitizer.sanitize_class_name(f"{operation_id}Request"),
+                media_schema_node,
+                context,
+                allow_self_reference=False,
             )
         else:
             content_map[mt] = _parse_schema(None, media_schema_node, context, allow_self_reference=False)
